@@ -374,6 +374,48 @@ func UserAndWildcardOnSameObjectNotBothEffective(w gen.World, r m.Request) bool 
 	return false
 }
 
+// ExclusionBelow: some relation reachable from object#relation (through computed relations,
+// tuple-to-usersets and userset restrictions), other than the root operator of the queried relation
+// itself, is an exclusion.
+func ExclusionBelow(mo *m.Model, object, relation string) bool {
+	typ, _ := m.SplitObject(object)
+	type rk struct{ typ, rel string }
+	seen := map[rk]bool{}
+	found := false
+	var visit func(typ, rel string, root bool)
+	visit = func(typ, rel string, root bool) {
+		k := rk{typ, rel}
+		r := mo.Relation(typ, rel)
+		if r == nil || seen[k] {
+			return
+		}
+		seen[k] = true
+		r.Rewrite.Walk(func(n *m.Rewrite) {
+			switch n.Kind {
+			case m.Difference:
+				if !(root && n == r.Rewrite) {
+					found = true
+				}
+			case m.Computed:
+				visit(typ, n.Rel, false)
+			case m.TTU:
+				if ts := mo.Relation(typ, n.Tupleset); ts != nil {
+					for _, re := range ts.Restr {
+						visit(re.Type, n.Rel, false)
+					}
+				}
+			}
+		})
+		for _, re := range r.Restr {
+			if re.Rel != "" {
+				visit(re.Type, re.Rel, false)
+			}
+		}
+	}
+	visit(typ, relation, true)
+	return found
+}
+
 func hasDifference(mo *m.Model) bool {
 	found := false
 	for _, td := range mo.Types {
